@@ -221,9 +221,14 @@ def check(case):
     except R.Unspecified:
         call(spell.get, a, case["ix"], case["sp"], s["kinds"], mode=case["mode"], **kw)
         return unspecified()
-    got = call(spell.get, a, case["ix"], case["sp"], s["kinds"], mode=case["mode"], **kw)
+    pre = {}
+    got = call(spell.get, a, case["ix"], case["sp"], s["kinds"], mode=case["mode"], pre=pre, **kw)
     if common.snap(a) != before:
         return bad("operand modified by an indexing read")
+    # the caller re-uses its index objects (same tuple / lists / {dim: index} mapping) for a second read: same answer
+    again = call(spell.get, a, case["ix"], case["sp"], s["kinds"], mode=case["mode"], pre=pre, **kw)
+    if isinstance(again, Raised) != isinstance(got, Raised) or (not isinstance(got, Raised) and common.describe(again) != common.describe(got)):
+        return bad("a second read with the SAME index objects gives {} but the first read gave {}".format(common.describe(again), common.describe(got)))
     nontriv = any(ix[0] not in ("full", "e") for ix in case["ix"])
     if isinstance(expect, R.RefRaises):
         if isinstance(got, Raised) and issubclass(got.cls, expect.cls):
